@@ -113,7 +113,7 @@ func (d *driver) units(v int) int {
 func seqToks(base, n int) []int {
 	r := make([]int, n)
 	for j := range r {
-		r[j] = base + j + 1
+		r[j] = (base+j)%250 + 1 // tokens live in 1..250 (one byte value each); larger numbers share them
 	}
 	return r
 }
